@@ -32,6 +32,7 @@ RULE = ('Every C11 command that generates and passes, followed by up to 4 '
 RULE += ' ' + 'Also: insertion of one non-ASCII character; append / truncate of one byte at the end of 4096-65536-byte binary files; a mutation aimed at each of two files whose names differ only in non-identifier characters; a generated test that fails with nothing changed is a violation of this property too.'
 RULE += ' ' + "Round 6: a stamp of today's date with a two-digit year in an otherwise checked line; outputs that already exist and are rewritten with an older modification time than they had."
 RULE += ' ' + 'Round 7: as C11 (signal deaths, $TMPDIR outputs, unresolvable host name); exit-status mutations between signals.'
+RULE += ' ' + "Round 8: mutation ins_bom (a byte-order mark appears at the start of a non-ASCII text file); one case in ten is built around a stdout line whose only machine-specific part is a path under a home directory holding the user's name, with a changed digit in it (home_digit)."
 ASSUMPTIONS = ['edits that only touch the final newline or a trailing blank '
                'line are not produced (C04 documents that tolerance)']
 
